@@ -13,8 +13,11 @@ import (
 	"io"
 	"math/rand"
 	"net"
+	"os"
 	"strconv"
 	"sync"
+	"sync/atomic"
+	"syscall"
 	"testing"
 	"time"
 
@@ -32,6 +35,8 @@ type c20Conn struct {
 	done           chan struct{}
 }
 
+var c20ErrCursor int64
+
 func newC20Conn(failAt int, partial bool) *c20Conn {
 	return &c20Conn{failAt: failAt, partial: partial, done: make(chan struct{})}
 }
@@ -48,6 +53,17 @@ func (c *c20Conn) Write(b []byte) (int, error) {
 		c.failed = true
 		if c.partial {
 			return len(b) / 2, errors.New("connection reset by peer (scripted, partial write)")
+		}
+		// the failure walks through the kinds of error a dead connection reports
+		switch atomic.AddInt64(&c20ErrCursor, 1) % 5 {
+		case 0:
+			return 0, &net.OpError{Op: "write", Net: "tcp", Err: os.NewSyscallError("write", syscall.ETIMEDOUT)}
+		case 1:
+			return 0, &net.OpError{Op: "write", Net: "tcp", Err: os.NewSyscallError("write", syscall.EPIPE)}
+		case 2:
+			return 0, &net.OpError{Op: "write", Net: "tcp", Err: os.ErrDeadlineExceeded}
+		case 3:
+			return 0, &net.OpError{Op: "write", Net: "tcp", Err: os.NewSyscallError("write", syscall.ECONNRESET)}
 		}
 		return 0, errors.New("connection reset by peer (scripted)")
 	}
